@@ -601,7 +601,7 @@ impl<H: Host> ZXController<H> {
     #[verifier::external_body]
     pub fn frame_pos(&self) -> f64 { unimplemented!() }
 
-//@ fn rustzx-core/src/zx/controller.rs impl <H:Host>ZXController<H>::new_frame props C05
+//@ fn rustzx-core/src/zx/controller.rs impl <H:Host>ZXController<H>::new_frame props C05 C08 C09 C19
 //@ sig
         requires old(self).memory.wf(), old(self).frame_clocks as int >= frame_len(old(self).machine),
         ensures
@@ -617,7 +617,7 @@ impl<H: Host> ZXController<H> {
         broadcast use group_call_logs;
 //@ end
 
-//@ fn rustzx-core/src/zx/controller.rs impl <H:Host>Z80BusforZXController<H>::wait_internal props C04 C05
+//@ fn rustzx-core/src/zx/controller.rs impl <H:Host>Z80BusforZXController<H>::wait_internal props C04 C05 C08 C11 C19
 //@ sig
         requires old(self).inv(), old(self).room(1), clk as int <= 64,
         ensures
@@ -746,7 +746,7 @@ impl<H: Host> ZXController<H> {
         proof { reveal(c_then); }
 //@ end
 
-//@ fn rustzx-core/src/zx/controller.rs impl <H:Host>ZXController<H>::write_7ffd props C06 C07
+//@ fn rustzx-core/src/zx/controller.rs impl <H:Host>ZXController<H>::write_7ffd props C06 C07 C08
 //@ sig
         requires old(self).inv_l(false),
         ensures
@@ -867,7 +867,7 @@ impl<H: Host> ZXController<H> {
             final(self).same_but_mixer(old(self)),
 //@ end
 
-//@ fn rustzx-core/src/zx/controller.rs impl <H:Host>Z80BusforZXController<H>::write_io props C07 C04
+//@ fn rustzx-core/src/zx/controller.rs impl <H:Host>Z80BusforZXController<H>::write_io props C07 C04 C08 C09
 //@ sig
         requires old(self).inv(), old(self).room(8),
         ensures final(self).inv(),
